@@ -191,13 +191,14 @@ class Transaction:
 
     @staticmethod
     def _schema_signature(schema: Schema) -> List[Any]:
-        """Comparable signature of a schema's fields: (name, type, required)
-        IN ORDER - pa.concat_tables needs identical column order."""
+        """Comparable signature of a schema's fields: (id, name, type, required)
+        IN ORDER. Order matters (pa.concat_tables needs identical column order)
+        and so does the id (column bounds are keyed by it)."""
         sig = []
         for f in schema.fields:
             f_type = f.get("type")
             type_key = json.dumps(f_type, sort_keys=True) if isinstance(f_type, (dict, list)) else f_type
-            sig.append((f.get("name"), type_key, bool(f.get("required", False))))
+            sig.append((f.get("id"), f.get("name"), type_key, bool(f.get("required", False))))
         return sig
 
     def _validate_schema_against_table(self, schema: Schema) -> None:
